@@ -155,6 +155,41 @@ const (
 	poolFull = pVar0 + nVar
 )
 
+// Extreme NextUpdate values (family T): centuries back and ahead, and the boundaries of the
+// integer representations a time can be squeezed into (int32 / uint32 / int64-nanosecond Unix time,
+// int64-nanosecond durations: 2^63 ns = 9223372036.85 s = 292.27 years). `rel` entries are offsets
+// from the pool's reference time (reproducible abstract values), `abs` entries are calendar dates
+// (their abstract offset depends on the day the harness runs).
+type extreme struct {
+	name string
+	rel  int64  // seconds relative to t0 (used when abs == "")
+	abs  string // RFC 3339
+}
+
+const yearSec = 31556952
+
+var extremes = []extreme{
+	{name: "-100y", rel: -100 * yearSec}, {name: "-292y", rel: -292 * yearSec},
+	{name: "-2^63ns", rel: -9223372036}, {name: "-2^63ns-1s", rel: -9223372037}, {name: "-293y", rel: -293 * yearSec},
+	{name: "-300y", rel: -300 * yearSec}, {name: "-425y", rel: -425 * yearSec}, {name: "-526y", rel: -526 * yearSec},
+	{name: "-584y", rel: -584 * yearSec}, {name: "-585y", rel: -585 * yearSec}, {name: "-726y", rel: -726 * yearSec},
+	{name: "-1026y", rel: -1026 * yearSec}, {name: "-2000y", rel: -2000 * yearSec},
+	{name: "+100y", rel: 100 * yearSec}, {name: "+2^63ns", rel: 9223372036}, {name: "+2^63ns+1s", rel: 9223372037},
+	{name: "+300y", rel: 300 * yearSec}, {name: "+600y", rel: 600 * yearSec}, {name: "+1000y", rel: 1000 * yearSec}, {name: "+7000y", rel: 7000 * yearSec},
+	{name: "0001-01-01T00:00:01Z", abs: "0001-01-01T00:00:01Z"}, {name: "1000", abs: "1000-01-01T00:00:00Z"},
+	{name: "1500", abs: "1500-01-01T00:00:00Z"}, {name: "1601 (FILETIME 0)", abs: "1601-01-01T00:00:00Z"},
+	{name: "int64ns-min", abs: "1677-09-21T00:12:43Z"}, {name: "int64ns-min+1s", abs: "1677-09-21T00:12:44Z"},
+	{name: "1700", abs: "1700-01-01T00:00:00Z"}, {name: "1900", abs: "1900-01-01T00:00:00Z"},
+	{name: "int32-min", abs: "1901-12-13T20:45:52Z"}, {name: "unix -1", abs: "1969-12-31T23:59:59Z"},
+	{name: "unix 0", abs: "1970-01-01T00:00:00Z"}, {name: "unix 1", abs: "1970-01-01T00:00:01Z"},
+	{name: "int32-max", abs: "2038-01-19T03:14:07Z"}, {name: "int32-max+1s", abs: "2038-01-19T03:14:08Z"},
+	{name: "uint32-max", abs: "2106-02-07T06:28:15Z"}, {name: "uint32-max+1s", abs: "2106-02-07T06:28:16Z"},
+	{name: "int64ns-max", abs: "2262-04-11T23:47:16Z"}, {name: "int64ns-max+1s", abs: "2262-04-11T23:47:17Z"},
+	{name: "9999", abs: "9999-12-31T23:59:59Z"},
+}
+
+const pExt0 = poolFull
+
 var poolOffsets = map[int]int64{pFresh75a: 75, pFresh75b: 75, pFresh3600: 3600, pFresh30d: 30 * 86400,
 	pExp75a: -75, pExp75b: -75, pExp3600: -3600, pExp30d: -30 * 86400, pDeltaFresh75: 75, pDeltaExp75: -75, pDeltaFreshOld: 75}
 
@@ -251,6 +286,34 @@ func mintPool(ca, edca *common.Cert) *pool {
 		if len(p.crls[pVar0+i].der) <= len(p.crls[pVar0+i-1].der) {
 			panic("variable-length CRLs are not increasing in length")
 		}
+	}
+	// extreme NextUpdate values
+	for i, e := range extremes {
+		// time.Duration cannot hold centuries: add the seconds through Unix time
+		nu := time.Unix(p.t0.Unix()+e.rel, 0).UTC()
+		if e.abs != "" {
+			var err error
+			nu, err = time.Parse(time.RFC3339, e.abs)
+			must(err)
+		}
+		this := p.t0.Add(-time.Hour)
+		if nu.Before(this) {
+			this = nu.Add(-time.Second)
+			if this.Year() < 1 || nu.Year() == 1 {
+				this = nu
+			}
+		}
+		t := &x509.RevocationList{Number: big.NewInt(int64(500 + i)), ThisUpdate: this, NextUpdate: nu,
+			RevokedCertificateEntries: []x509.RevocationListEntry{{SerialNumber: big.NewInt(int64(8000 + i)), RevocationTime: this}}}
+		der, err := x509.CreateRevocationList(rand.Reader, t, ca.Cert, ca.Key)
+		if err != nil {
+			panic(fmt.Sprintf("extreme CRL %s: %v", e.name, err))
+		}
+		rl, err := x509.ParseRevocationList(der)
+		if err != nil || !rl.NextUpdate.Equal(nu) {
+			panic(fmt.Sprintf("extreme CRL %s does not round-trip: %v %v", e.name, err, rl))
+		}
+		p.crls = append(p.crls, &poolCRL{name: "NU " + e.name, der: der, rl: rl})
 	}
 	for i, pc := range p.crls {
 		p.refs = append(p.refs, describe(i, pc.der, p.t0))
@@ -915,6 +978,9 @@ func (g *gen) randomCase() plan {
 	pl := plan{urls: g.pickURLs()}
 	cos := allCorruptions()
 	pickCRL := func() int {
+		if r.Intn(10) == 0 {
+			return pExt0 + r.Intn(len(extremes)) // a NextUpdate centuries away / at an integer boundary
+		}
 		if r.Intn(3) == 0 {
 			return r.Intn(poolSize)
 		}
@@ -1002,6 +1068,17 @@ func Run(c *common.Ctx) error {
 				{kind: "set", url: 0, base: pFresh3600, delta: pDeltaExp75}, {kind: "get", url: 0},
 				{kind: "set", url: 0, base: pFresh3600, delta: -1}, {kind: "get", url: 0}}}, "C:url-pairs")
 			pairs++
+		}
+	}
+	// T. extreme NextUpdate values, as base alone, as delta of a fresh base, as base of a fresh / expired
+	// delta, and two extremes together; then overwritten by an ordinary fresh bundle
+	for i := range extremes {
+		x := pExt0 + i
+		y := pExt0 + (i+7)%len(extremes)
+		for _, bd := range [][2]int{{x, -1}, {pFresh3600, x}, {x, pDeltaFresh75}, {x, pDeltaExp75}, {x, y}, {y, x}} {
+			g.run(plan{urls: []string{"http://a/crl", "http://a/crl/"}, ops: []planOp{
+				{kind: "set", url: 0, base: bd[0], delta: bd[1]}, {kind: "get", url: 0}, {kind: "get", url: 1},
+				{kind: "set", url: 0, base: pFresh75a, delta: -1}, {kind: "get", url: 0}}}, "T:extreme-next-update")
 		}
 	}
 	// H. re-issued CRLs: same CRL number, different bytes, stored one after the other under one URL
